@@ -30,6 +30,11 @@ def plan(tier, seed):
                   'calls': 3 if q else 12})
     specs.append({'shard': 'weakkey-' + name, 'curve': name,
                   'batches': 2 if q else 6, 'weight': 6, 'timeout': 2400})
+  # (forms x keys > 1024 puts the lookup table beyond 2^21 entries)
+  for name, keys in [('CURVE_SECP192R1', 44)] + ([] if q else [
+      ('CURVE_SECP256K1', 32), ('CURVE_SECP521R1', 16)]):
+    specs.append({'shard': 'weaklarge-' + name, 'curve': name, 'keys': keys,
+                  'weight': 30, 'timeout': 2400})
   for i in range(3 if q else 8):
     specs.append({'shard': 'tinydiff-%d' % i, 'pmin': 300, 'pmax': 900})
   for j, name in enumerate(gen.NAMED):
@@ -253,6 +258,71 @@ def run_weakkey(ctx, spec):
     pass
 
 
+def run_weaklarge(ctx, spec):
+  """One large CheckWeakECPrivateKey batch (lookup table beyond 2^21 entries),
+  then smaller searches of every kind on the same curve object: a table that
+  is released, shrunk or replaced must take its size marker with it."""
+  from paranoid_crypto.lib import ec_aggregate_checks
+  from paranoid_crypto.lib import ec_single_checks
+  rng = ctx.rng('weaklarge')
+  name = spec['curve']
+  mc = gen.model_curve(name)
+  rc = gen.repo_curve(name)
+  n, bits = mc.n, mc.n.bit_length()
+  forms = _forms(bits, n, rng, False)
+  rng.shuffle(forms)
+  chk = ec_single_checks.CheckWeakECPrivateKey()
+
+  def judge(batch, healthy, stage):
+    keys = [gen.ec_key_from_priv(name, d) for d, _ in batch]
+    keys += [gen.ec_key_from_priv(name, d) for d in healthy]
+    order = list(range(len(keys)))
+    rng.shuffle(order)
+    try:
+      chk.Check([keys[i] for i in order])
+    except Exception as e:  # pylint: disable=broad-except
+      ctx.violation('weakkey-check-raised-%s' % type(e).__name__, repr(e),
+                    {'curve': name, 'stage': stage})
+      return
+    for (d, desc), key in zip(batch, keys):
+      ctx.count('evaluations')
+      ctx.distinct(name, stage, d)
+      ent = gen.entries(key.test_info).get('CheckWeakECPrivateKey')
+      att = gen.attached(key.test_info).get('DISCRETE_LOG')
+      if not ent or not ent[0] or att is None or (int(att, 16) - d) % n:
+        ctx.violation('structured-key-not-flagged/after-large-batch'
+                      if stage != 'large' else 'structured-key-not-flagged',
+                      '%s private key %x (%s) not flagged with its log in '
+                      'stage %s (batch of %d)' % (name, d, desc, stage,
+                                                  len(keys)),
+                      {'curve': name, 'd': d, 'stage': stage})
+      else:
+        ctx.count('structured_keys_found')
+
+  if not ctx.want('large'):
+    return
+  big = spec['keys']
+  judge(forms[:3], [rng.below(n - 1) + 1 for _ in range(big - 3)], 'large')
+  ctx.count('large_weakkey_batches')
+  ctx.maxc('largest_table_entries', len(getattr(rc, '_table', None) or ()))
+  judge(forms[3:8], [], 'small-after-large')
+  judge(forms[8:10], [rng.below(n - 1) + 1 for _ in range(big - 2)],
+        'large-again')
+  _batchdl(ctx, rc, mc, [0, 1, 12345, 2 ** 20 - 1], 2 ** 20, 'after-large')
+  base = rng.below(n - 10 ** 6) + 1
+  ds = [base, base + 1000, rng.below(n - 1) + 1, base + 1]
+  keys = [gen.ec_key_from_priv(name, d) for d in ds]
+  ec_aggregate_checks.CheckECKeySmallDifference(max_diff=1024).Check(keys)
+  flags = [bool((gen.entries(k.test_info).get('CheckECKeySmallDifference') or
+                 (False,))[0]) for k in keys]
+  ctx.count('evaluations', 4)
+  if flags != [True, True, False, True]:
+    ctx.violation('close-pair-missed/after-large-batch',
+                  '%s: keys at distances 0/1000/1 from a base after a large '
+                  'weak-key batch: flags %r' % (name, flags), {'curve': name})
+  ctx.sample({'curve': name, 'large_batch': big})
+
+
 def _diff_strings_ok(res):
   return all(v is None or isinstance(v, str) for v in res)
 
@@ -423,6 +493,7 @@ def run_diffdefault(ctx, spec):
 def run(ctx, spec):
   s = spec['shard']
   for prefix, fn in (('tinydl', run_tinydl), ('nameddl', run_nameddl),
+                     ('weaklarge', run_weaklarge),
                      ('weakkey', run_weakkey), ('tinydiff', run_tinydiff),
                      ('diffdefault', run_diffdefault), ('diff-', run_diff)):
     if s.startswith(prefix):
@@ -435,7 +506,7 @@ def finalize(agg, tier):
   for k in ('table:rebuilt', 'table:cached-larger', 'history_difference_calls',
             'history_sweeps',
             'structured_keys_found', 'close_pairs', 'identical_keys',
-            'form:shift', 'form:repeat'):
+            'form:shift', 'form:repeat', 'large_weakkey_batches'):
     if not c.get(k):
       inc.append('reach counter %s is zero' % k)
   return [], inc
